@@ -182,9 +182,24 @@ func (p *processor) processEvent(event *Event) (isPassed bool, e *Event) {
 		event = stream.blockGet()
 		if event.IsTimeoutKind() {
 			// pass timeout directly to plugin which requested next sequential event.
-			event.action = lastAction
+			event.action = p.timeoutAction(lastAction)
 		}
 	}
+}
+
+// timeoutAction returns the action a stream timeout is meant for: the last action
+// if it waits for the next sequential event, otherwise the first action that does
+// (the last event may have been discarded by an action placed before the waiting one).
+func (p *processor) timeoutAction(lastAction int) int {
+	if p.busyActions[lastAction] {
+		return lastAction
+	}
+	for index, busy := range p.busyActions {
+		if busy {
+			return index
+		}
+	}
+	return lastAction
 }
 
 func (p *processor) doActions(event *Event) (isPassed bool, lastAction int) {
